@@ -164,6 +164,15 @@ def Op.req : Op → Option Req
   | .other r u => some { verb := .other, ref := r, user := u }
   | _ => none
 
+def reqRacy : Option Req → Bool
+  | some r => r.racy
+  | none => false
+
+/-- the owner a session created by this request would be bound to -/
+def reqOwner : Option Req → Owner
+  | some r => r.user.owner
+  | none => .unbound
+
 def St.accepted2xx : St → Bool
   | .code 200 | .code 202 | .code 204 | .pending => true
   | _ => false
@@ -307,7 +316,7 @@ def judgeEntry (cfg : Cfg) (now : Nat) (req : Option Req) (st : St) (hdr : Optio
       | some r => if r.verb == .post && r.ref == .absent && !cfg.stateless then some r else none
       | none => none
     let v : Option TblClause :=
-      if (match req with | some r => r.racy | none => false) then some .f20
+      if reqRacy req then some .f20
       else match creating with
         | some r =>
           if r.kind != some .init then some .keptAfterFailedInit
@@ -442,6 +451,22 @@ def chkNoId (cfg : Cfg) (req : Option Req) (st : St) (hdr : Option Name) : Bool 
 
 /-! ## one record -/
 
+def chkAnswerO (cfg : Cfg) (fl : Faults) (tbl : List MSess) (req : Option Req) (st : St) : Option AnsClause :=
+  match req with
+  | some r => chkAnswer cfg fl tbl r st
+  | none => none
+
+/-- the environment's script after this operation -/
+def faultsAfter (m : Mon) (op : Op) (st : St) : Faults :=
+  match op with
+  | .fault f => if st == .ok then f else m.faults
+  | _ => m.faults
+
+def zombieWrap (c : Clause) : Clause :=
+  match c with
+  | .tbl .f20 => c
+  | _ => .zombieThen c
+
 structure StepOut where
   mon : Mon
   viol : Option Clause
@@ -454,9 +479,7 @@ def monStep (cfg : Cfg) (m : Mon) (op : Op) (o : Obs) : StepOut :=
   let fl := effFaults cfg m
   -- idle sessions die when their timeout has elapsed
   let tbl0 := m.tbl.map (expire cfg now)
-  let v1 := match req with
-    | some r => (chkAnswer cfg fl tbl0 r st).map Clause.ans
-    | none => none
+  let v1 := (chkAnswerO cfg fl tbl0 req st).map Clause.ans
   let v2 := (chkLog cfg req st o.log).map Clause.log
   let v3 := (chkMint cfg tbl0 req st o.hdr).map Clause.mint
   let ba := bookAnswer cfg fl now (tagOf m op) tbl0 m.pend op st
@@ -470,22 +493,18 @@ def monStep (cfg : Cfg) (m : Mon) (op : Op) (o : Obs) : StepOut :=
   let v5b := (chkKeys o.map).map Clause.key
   let v5c := (chkGone names tbl3).map Clause.gone
   let tbl4 := reapDying names tbl3
-  let owner := match req with | some r => r.user.owner | none => Owner.unbound
-  let tbl5 := noteFailedInit now owner o.hdr tbl4
+  let tbl5 := noteFailedInit now (reqOwner req) o.hdr tbl4
   let v5d := (chkSrv cfg names o.srv).map Clause.srv
   let v5e := if chkNoId cfg req st o.hdr then some Clause.noId else none
   -- F20: once a session that the server closed during its creation sits in the handler's table, every
   -- clause it breaks afterwards is the same defect
-  let racy := match req with | some r => r.racy | none => false
-  let zombies := m.zombies ++ (if racy then names.filter (fun n => (monFind tbl2 n).isNone) else [])
+  let zombies := m.zombies ++ (if reqRacy req then names.filter (fun n => (monFind tbl2 n).isNone) else [])
   let viol := firstViol v1 (firstViol v2 (firstViol v3 (firstViol (v5a.map Clause.tbl)
     (firstViol v5b (firstViol v5c (firstViol v5d v5e))))))
   let viol := if names.any zombies.contains then
-      viol.map (fun c => match c with | .tbl .f20 => c | _ => .zombieThen c)
+      viol.map zombieWrap
     else viol
-  let faults := match op with
-    | .fault f => if st == .ok then f else m.faults
-    | _ => m.faults
+  let faults := faultsAfter m op st
   let cnt := countersAfter m op st
   { mon := { tbl := tbl5, now := now, pend := bd.2, zombies := zombies, run := bs.2, faults := faults,
              nslow := cnt.1, nasync := cnt.2 },
